@@ -310,7 +310,10 @@ def reject_strategy():
                                     else ['range', 'range', 'length', 'shape']))
         n = draw(st.integers(1, 4))
         rows = [draw(tuple_strategy(fields)) for _ in range(n)]
-        conv = draw(st.sampled_from(['scalar', 'array']))
+        conv = draw(st.sampled_from(['scalar', 'array', 'array']))
+        if conv == 'array' and n < 2:
+            rows = rows + [draw(tuple_strategy(fields))]        # arrays mix valid and invalid elements
+            n = 2
         case = dict(which=which, mode=mode, rows=rows, conv=conv)
         if mode == 'range':
             name, lo, hi, sh = draw(st.sampled_from(fields))
